@@ -339,6 +339,111 @@ Section Model.
     | Ok c => Ok (if wt then mapped_wt c objs n r else mapped_mapping c objs n r)
     end.
 
+  (* ================= the w_tilde object is handed over separately ================= *)
+  (* WTildeImaging: the three tables and noise_map_value.  factory.inversion_imaging_from passes preloads.w_tilde if that is
+     not None, else dataset.w_tilde (an Imaging computes it from ITS noise map; a DatasetInterface carries whatever it was given) *)
+  Record wtilde := { w_pre : vec; w_idx : list nat; w_lens : list nat; w_nmv : T }.
+  (* dataset.py Imaging.w_tilde of the dataset with mask m, psf K and noise map sw: nothing in it depends on the data *)
+  Definition imaging_w_tilde (m : mask) (K : kernel) (sw : vec) : wtilde :=
+    let '(pre, idx, lens) := preload (native m sw) K (unmasked m) in
+    {| w_pre := pre; w_idx := idx; w_lens := lens; w_nmv := nthT sw 0 |}.
+  (* InversionImagingWTilde.curvature_matrix on the tables of the object it was given *)
+  Definition F_wt_of (c : convolver) (w : wtilde) (objs : list lobj) (s : vec) (eps : T) : mat :=
+    let C := mirrored (F_wt_pre c (w_pre w) (w_idx w) (w_lens w) objs s) in
+    let nr := noreg_index_list objs in
+    if negb (Nat.eqb (length nr) 0) then add_to_diag C eps nr else C.
+  (* factory.inversion_imaging_from: which class is instantiated.  settings_use = settings.use_w_tilde,
+     preload_use = preloads.use_w_tilde (None unless a Preloads object sets it) *)
+  Definition factory_use_wt (objs : list lobj) (settings_use : bool) (preload_use : option bool) : bool :=
+    let u := if forallb is_func objs then false
+             else match preload_use with Some b => b | None => settings_use end in
+    if negb settings_use then false else u.
+  Definition factory_w (dataset_w : wtilde) (preload_w : option wtilde) : wtilde :=
+    match preload_w with Some w => w | None => dataset_w end.
+  (* the instance: InversionImagingWTilde.__init__ runs w_tilde.check_noise_map(noise_map) -- noise_map[0] != noise_map_value
+     raises InversionException (settings.use_w_tilde is True whenever the factory chooses this class); the data vector uses the
+     data and noise map of the dataset that was PASSED IN (w_tilde_data is computed from self.data / self.noise_map), the
+     curvature matrix the tables of the w_tilde object *)
+  Definition inversion_w (m : mask) (K : kernel) (d s : vec) (w : wtilde) (objs : list lobj) (wt : bool) (eps : T) : res inv_out :=
+    match convolver_init m K with
+    | Raise e => Raise e
+    | Ok c =>
+        let n := length d in
+        if wt
+        then if eqb O (nthT s 0) (w_nmv w)
+             then Ok {| o_wt := true; o_B := op_matrix c objs n; o_D := D_wt c m K objs d s; o_F := F_wt_of c w objs s eps |}
+             else Raise InversionException
+        else Ok {| o_wt := false; o_B := op_matrix c objs n; o_D := D_mapping c objs d s; o_F := F_mapping c objs n s eps |}
+    end.
+  Definition inversion_from (m : mask) (K : kernel) (d s : vec) (dataset_w : wtilde) (preload_w : option wtilde)
+             (objs : list lobj) (settings_use : bool) (preload_use : option bool) (eps : T) : res inv_out :=
+    inversion_w m K d s (factory_w dataset_w preload_w) objs (factory_use_wt objs settings_use preload_use) eps.
+
+  (* ================= cached properties of ONE instance read in any order, any number of times ================= *)
+  (* abstract.py: operated_mapping_matrix, data_vector, curvature_matrix, curvature_reg_matrix are cached_property entries of
+     the instance's __dict__.  Only one of them is ever written in place: curvature_reg_matrix with a single linear object
+     (len(regularization_list) == 1) that has a regularization takes the CACHED curvature_matrix array, adds the regularization
+     matrix into it, and deletes the __dict__ entry "curvature_matrix" so that the next read recomputes it into a new array.
+     Without any regularization it returns the cached curvature_matrix array itself (an alias, never written); otherwise
+     np.add allocates.  reconstruction reads data_vector, then curvature_reg_matrix (keyword arguments, in that order).
+     Arrays live in heap cells; [Fv], [Dv], [Bv], [H] are the values the (pure) computations give. *)
+  Inductive rq := RB | RD | RF | RFR | RRec.
+  Inductive rout := OutM (M : mat) | OutV (v : vec) | OutNone.
+  Record istate := { i_heap : list mat; i_F : option nat; i_FR : option nat }.
+  Definition ist0 : istate := {| i_heap := []; i_F := None; i_FR := None |}.
+  Definition hcell (h : list mat) (c : nat) : mat := nth c h [].
+  (* cached read of curvature_matrix: the cached array, or a new array holding the computed value *)
+  Definition read_F (Fv : mat) (st : istate) : istate * nat :=
+    match i_F st with
+    | Some c => (st, c)
+    | None => ({| i_heap := i_heap st ++ [Fv]; i_F := Some (length (i_heap st)); i_FR := i_FR st |}, length (i_heap st))
+    end.
+  (* [entry_deleted]: the `del self.__dict__["curvature_matrix"]` of curvature_reg_matrix (true in the code) *)
+  Definition read_FR (entry_deleted : bool) (objs : list lobj) (Fv H : mat) (st : istate) : istate * nat :=
+    match i_FR st with
+    | Some c => (st, c)
+    | None =>
+        let '(st1, c) := read_F Fv st in
+        if negb (existsb has_reg objs) then
+          ({| i_heap := i_heap st1; i_F := i_F st1; i_FR := Some c |}, c)
+        else if Nat.eqb (length objs) 1 then
+          ({| i_heap := upd_set (i_heap st1) c (madd (hcell (i_heap st1) c) H);
+              i_F := if entry_deleted then None else i_F st1; i_FR := Some c |}, c)
+        else
+          ({| i_heap := i_heap st1 ++ [madd (hcell (i_heap st1) c) H]; i_F := i_F st1;
+              i_FR := Some (length (i_heap st1)) |}, length (i_heap st1))
+    end.
+  (* operated_mapping_matrix and data_vector are cached values that nothing writes to: reading them has no effect on the cells *)
+  Definition rstep (entry_deleted : bool) (objs : list lobj) (Bv : mat) (Dv : vec) (Fv H : mat) (st : istate) (q : rq)
+    : istate * rout :=
+    match q with
+    | RB => (st, OutM Bv)
+    | RD => (st, OutV Dv)
+    | RF => let '(st1, c) := read_F Fv st in (st1, OutM (hcell (i_heap st1) c))
+    | RFR => let '(st1, c) := read_FR entry_deleted objs Fv H st in (st1, OutM (hcell (i_heap st1) c))
+    | RRec => let '(st1, _) := read_FR entry_deleted objs Fv H st in (st1, OutNone)
+    end.
+  Fixpoint rrun (entry_deleted : bool) (objs : list lobj) (Bv : mat) (Dv : vec) (Fv H : mat) (st : istate) (qs : list rq)
+    : list rout :=
+    match qs with
+    | [] => []
+    | q :: t => let '(st1, v) := rstep entry_deleted objs Bv Dv Fv H st q in v :: rrun entry_deleted objs Bv Dv Fv H st1 t
+    end.
+  (* what every read has to return, whatever was read before *)
+  Definition rpure (objs : list lobj) (Bv : mat) (Dv : vec) (Fv H : mat) (q : rq) : rout :=
+    match q with
+    | RB => OutM Bv | RD => OutV Dv | RF => OutM Fv
+    | RFR => OutM (if existsb has_reg objs then madd Fv H else Fv)
+    | RRec => OutNone
+    end.
+  (* aa.Inversion(dataset, linear_obj_list, settings, preloads) followed by a sequence of reads on the instance *)
+  Definition inversion_reads (m : mask) (K : kernel) (d s : vec) (w : wtilde) (objs : list lobj) (wt : bool) (eps : T)
+             (H : mat) (qs : list rq) : res (list rout) :=
+    match inversion_w m K d s w objs wt eps with
+    | Raise e => Raise e
+    | Ok o => Ok (rrun true objs (o_B o) (o_D o) (o_F o) H ist0 qs)
+    end.
+
   (* ================= specification (no frames, no preload, no blocks) ================= *)
   (* blurred mapping matrix: every column is the true 2-D convolution of that column placed on the mask *)
   Definition B_spec_obj (m : mask) (K : kernel) (o : lobj) : mat :=
@@ -380,6 +485,23 @@ Definition close (tol a b : Q) : bool := Qle_bool (Qabs (a - b)) (tol * (1 + Qab
 Definition qv_close (tol : Q) := list_eqb (close tol).
 Definition qm_close (tol : Q) := list_eqb (qv_close tol).
 Definition nat_list_eqb := list_eqb Nat.eqb.
+(* closeness RELATIVE TO THE SCALE OF THE COLUMNS (tolerance cases; tol = 0 means equality): every entry is compared against a
+   bound on the sum of the absolute values of the terms it is made of.  Column p of the operated matrix is bounded by
+   cs_p = (sum |K|) * max_d |M[d][p]| (max_d |ov[d][p]| for an operated override), so
+   |B[i][p]| <= cs_p, |D[p]| <= cs_p * sum_i |d_i| / s_i^2, |F[p][q]| <= cs_p * cs_q * sum_i 1 / s_i^2 (+ |eps| on a flagged
+   diagonal entry, + |H[p][q]| for curvature_reg_matrix), |mapped[i]| <= sum_p cs_p * |r_p|: a column scaled by 2^-20 is
+   compared at the same relative precision as a column of order one. *)
+Definition qsum (v : qv) : Q := fold_right Qplus 0%Q v.
+Definition qmaxl (v : qv) : Q := fold_right (fun a b => if Qle_bool a b then b else a) 0%Q v.
+Definition colmax (M : qm) (p : nat) : Q := qmaxl (map (fun row => Qabs (nth p row 0%Q)) M).
+Definition ksum (K : qm) : Q := qsum (map Qabs (concat K)).
+Definition within (tol bound a b : Q) : bool := Qle_bool (Qabs (a - b)) (tol * bound).
+Definition qv_within (tol : Q) (bnd : nat -> Q) (a b : qv) : bool :=
+  Nat.eqb (length a) (length b) &&
+  forallb (fun ix => within tol (bnd (fst ix)) (fst (snd ix)) (snd (snd ix))) (combine (seq 0 (length a)) (combine a b)).
+Definition qm_within (tol : Q) (bnd : nat -> nat -> Q) (A B : qm) : bool :=
+  Nat.eqb (length A) (length B) &&
+  forallb (fun ir => qv_within tol (bnd (fst ir)) (fst (snd ir)) (snd (snd ir))) (combine (seq 0 (length A)) (combine A B)).
 
 Inductive qobj :=
 | QMapper (du : list (list Z)) (dw : qm) (pl : list nat) (M : qm) (P : nat) (reg : bool)
@@ -390,12 +512,58 @@ Definition to_lobj (o : qobj) : @lobj QOps :=
   | QFunc M ov P reg => @LFunc QOps M ov P reg
   end.
 Definition qenc (du : list (list Z)) (dw : qm) (pl : list nat) : @enc QOps := @Build_enc QOps du dw pl.
+Definition colscales (K : qm) (objs : list qobj) : qv :=
+  flat_map (fun o => match o with
+    | QMapper _ _ _ M P _ => map (fun p => (ksum K * colmax M p)%Q) (seq 0 P)
+    | QFunc M None P _ => map (fun p => (ksum K * colmax M p)%Q) (seq 0 P)
+    | QFunc _ (Some ov) P _ => map (fun p => colmax ov p) (seq 0 P)
+    end) objs.
+(* the bounds of one inversion: columns, data norm sum |d|/s^2, noise norm sum 1/s^2, flagged diagonal *)
+Record scales := { sc_cs : qv; sc_dn : Q; sc_sn : Q; sc_eps : Q; sc_fl : list bool }.
+Definition scales_of (K : qm) (d s : qv) (objs : list qobj) (eps : Q) : scales :=
+  {| sc_cs := colscales K objs;
+     sc_dn := qsum (map (fun ds => (Qabs (fst ds) / (snd ds * snd ds))%Q) (combine d s));
+     sc_sn := qsum (map (fun x => (1 / (x * x))%Q) s);
+     sc_eps := Qabs eps;
+     sc_fl := @unreg_flags QOps (map to_lobj objs) |}.
+Definition bB (sc : scales) (_ p : nat) : Q := nth p (sc_cs sc) 0%Q.
+Definition bD (sc : scales) (p : nat) : Q := (nth p (sc_cs sc) 0%Q * sc_dn sc)%Q.
+Definition bF (sc : scales) (H : qm) (p q : nat) : Q :=
+  (nth p (sc_cs sc) 0%Q * nth q (sc_cs sc) 0%Q * sc_sn sc
+   + (if Nat.eqb p q && nth p (sc_fl sc) false then sc_eps sc else 0) + Qabs (nth q (nth p H []) 0%Q))%Q.
+Definition bMapped (K : qm) (objs : list qobj) (r : qv) : Q :=
+  qsum (map (fun cr => (fst cr * Qabs (snd cr))%Q) (combine (colscales K objs) r)).
+Definition inv_close (tol : Q) (sc : scales) (B0 : qm) (D0 : qv) (F0 : qm) (B : qm) (D : qv) (F : qm) : bool :=
+  qm_within tol (bB sc) B0 B && qv_within tol (bD sc) D0 D && qm_within tol (bF sc []) F0 F.
+(* one read of the sequence against its reference value *)
+Definition rout_close (tol : Q) (sc : scales) (H : qm) (q : rq) (ref out : @rout QOps) : bool :=
+  match q, ref, out with
+  | RB, OutM A, OutM B => qm_within tol (bB sc) A B
+  | RD, OutV a, OutV b => qv_within tol (bD sc) a b
+  | RF, OutM A, OutM B => qm_within tol (bF sc []) A B
+  (* the regularization matrix is not dyadic (Constant adds 1e-8 to its diagonal): F + H is rounded once, relative error 2^-53 *)
+  | RFR, OutM A, OutM B => qm_within (tol + (1 # 1000000000000)) (bF sc H) A B
+  | RRec, OutNone, OutNone => true
+  | _, _, _ => false
+  end.
+Fixpoint routs_close (tol : Q) (sc : scales) (H : qm) (qs : list rq) (refs outs : list (@rout QOps)) : bool :=
+  match qs, refs, outs with
+  | [], [], [] => true
+  | q :: qt, r :: rt, o :: ot => rout_close tol sc H q r o && routs_close tol sc H qt rt ot
+  | _, _, _ => false
+  end.
 
 Inductive case :=
 (* aa.Inversion(dataset, linear_obj_list, settings): operated_mapping_matrix, data_vector, curvature_matrix of the instance the
    factory returned ([wt]: it is an InversionImagingWTilde; which class is chosen is not part of the comparison: by the theorems
    the two give the same values) *)
 | KInv (m : mask) (K : qm) (d s : qv) (objs : list qobj) (wt : bool) (eps tol : Q) (B : qm) (D : qv) (F : qm)
+(* the same through an instance whose w_tilde object was made by Imaging.w_tilde of a dataset with noise map [sw] (its data
+   are irrelevant): dataset.w_tilde of the Imaging itself (sw = s), DatasetInterface(data, noise_map, convolver,
+   w_tilde=imaging.w_tilde), Preloads(w_tilde=other_imaging.w_tilde).  [out] = None: InversionException (check_noise_map) *)
+| KInvW (m : mask) (K : qm) (d s sw : qv) (objs : list qobj) (wt : bool) (eps tol : Q) (out : option (qm * qv * qm))
+(* ONE instance, its cached properties read in the order [qs] (repeats allowed); [H] = its regularization_matrix *)
+| KSeq (m : mask) (K : qm) (d s : qv) (objs : list qobj) (wt : bool) (eps tol : Q) (H : qm) (qs : list rq) (outs : list (@rout QOps))
 (* mapped_reconstructed_data for a given reconstruction *)
 | KMapped (m : mask) (K : qm) (n : nat) (objs : list qobj) (wt : bool) (tol : Q) (r : qv) (out : qv)
 (* util functions *)
@@ -420,12 +588,23 @@ Definition agree (k : case) : bool :=
   match k with
   | KInv m K d s objs use eps tol B D F =>
       match @inversion QOps m K d s (map to_lobj objs) use eps with
-      | Ok o => qm_close tol (o_B o) B && qv_close tol (o_D o) D && qm_close tol (o_F o) F
+      | Ok o => inv_close tol (scales_of K d s objs eps) (o_B o) (o_D o) (o_F o) B D F
+      | Raise _ => false
+      end
+  | KInvW m K d s sw objs use eps tol out =>
+      match @inversion_w QOps m K d s (@imaging_w_tilde QOps m K sw) (map to_lobj objs) use eps, out with
+      | Ok o, Some (B, D, F) => inv_close tol (scales_of K d s objs eps) (o_B o) (o_D o) (o_F o) B D F
+      | Raise InversionException, None => true
+      | _, _ => false
+      end
+  | KSeq m K d s objs use eps tol H qs outs =>
+      match @inversion_reads QOps m K d s (@imaging_w_tilde QOps m K s) (map to_lobj objs) use eps H qs with
+      | Ok refs => routs_close tol (scales_of K d s objs eps) H qs refs outs
       | Raise _ => false
       end
   | KMapped m K n objs use tol r out =>
       match @mapped_data QOps m K n (map to_lobj objs) use r with
-      | Ok v => qv_close tol v out
+      | Ok v => qv_within tol (fun _ => bMapped K objs r) v out
       | Raise _ => false
       end
   | KDvBlurred B d s tol out => qv_close tol (@dv_blurred QOps B d s) out
@@ -462,18 +641,37 @@ Definition mtwm (M0 W M1 : qm) : qm := @dotTN QOps M0 (@dotNN QOps W M1).
 Definition enc_shape_ok (du : list (list Z)) (dw : qm) (pl : list nat) (P : nat) : bool :=
   forallb (fun d => forallb (fun pw => Nat.ltb (fst pw) P) (@enc_row QOps (qenc du dw pl) d)) (seq 0 (length pl)).
 
+(* the normal equations of the dataset that was passed in, from conv_full and plain sums; F symmetric *)
+Definition inv_spec_ok (m : mask) (K : qm) (d s : qv) (objs : list qobj) (eps tol : Q) (B : qm) (D : qv) (F : qm) : bool :=
+  let lo := map to_lobj objs in
+  let sc := scales_of K d s objs eps in
+  let Bs := @B_spec QOps m K lo in
+  inv_close tol sc B D F Bs (@D_spec QOps Bs d s (total_P lo)) (@F_spec QOps Bs s (unreg_flags lo) eps)
+  && qm_within tol (bF sc []) (@transpose QOps F) F.
+
 Definition spec_ok (k : case) : bool :=
   match k with
   | KInv m K d s objs use eps tol B D F =>
+      negb (valid_dataset m K) || inv_spec_ok m K d s objs eps tol B D F
+  | KInvW m K d s sw objs use eps tol out =>
+      negb (valid_dataset m K) ||
+      (* the first noise value differs and the w-tilde class is used: must be refused; a w_tilde object made from the SAME
+         noise map (whatever data that other dataset had): the normal equations of the data and noise map passed in; a
+         stale object that passes the first-value test: no claim *)
+      if use && negb (Qeq_bool (nth 0 s 0%Q) (nth 0 sw 0%Q)) then match out with None => true | Some _ => false end
+      else if negb use || qv_eqb s sw then
+        match out with Some (B, D, F) => inv_spec_ok m K d s objs eps tol B D F | None => false end
+      else true
+  | KSeq m K d s objs use eps tol H qs outs =>
       negb (valid_dataset m K) ||
       let lo := map to_lobj objs in
       let Bs := @B_spec QOps m K lo in
-      qm_close tol B Bs
-      && qv_close tol D (@D_spec QOps Bs d s (total_P lo))
-      && qm_close tol F (@F_spec QOps Bs s (unreg_flags lo) eps)
-      && is_symmetric tol F
+      let Ds := @D_spec QOps Bs d s (total_P lo) in
+      let Fs := @F_spec QOps Bs s (unreg_flags lo) eps in
+      routs_close tol (scales_of K d s objs eps) H qs (map (@rpure QOps lo Bs Ds Fs H) qs) outs
   | KMapped m K n objs use tol r out =>
-      negb (valid_dataset m K) || qv_close tol out (@mapped_spec QOps (@B_spec QOps m K (map to_lobj objs)) r)
+      negb (valid_dataset m K) ||
+      qv_within tol (fun _ => bMapped K objs r) out (@mapped_spec QOps (@B_spec QOps m K (map to_lobj objs)) r)
   | KDvBlurred B d s tol out => qv_close tol out (@D_spec QOps B d s (@ncols QOps B))
   | KCurvMapping B s add idx eps tol out =>
       let P := @ncols QOps B in
